@@ -1,6 +1,7 @@
 import Pocket.Thm.C19
 import Pocket.Lemmas.ParseWF
 import Pocket.Lemmas.RoundTrip
+import Pocket.Lemmas.EventUnknown
 /-
 C02 — the binary form is canonical; the round trip is lossless.
 
@@ -18,6 +19,11 @@ any prior contents) consumes exactly the text and yields exactly the bytes of `f
 accessors return the original event (`round_trip_values`).  Underneath: `json_unescape ∘ json_escape
 = id` (`unescape_escape_id`), hex and decimal fields read back, the tags array reads back as the
 tag section.  Consequently escaping is injective (`escape_injective`).
+
+CANONICAL OVER EVERY SPELLING (`canonical_any_spelling`): two texts that denote the same event —
+any member order, any whitespace (also inside the tags array), any legal escapes in tag strings and
+content, any unknown members (values nested at most 64 deep) — parsed into two buffers with any prior
+contents are byte-identical, and identical to `from_parts` of the seven values.
 -/
 namespace Pocket.C02
 open Pocket
@@ -104,6 +110,40 @@ theorem round_trip_values (e : EventRec) (hs : EventSized e)
   refine ⟨txt, _, _, _, ht, hp, rfl, ?_⟩
   rw [List.take_left' rfl]
   exact eventDecode_encode e hs
+
+/-- **the binary form is canonical over every JSON spelling**: two texts denoting the same event —
+differing in member order, whitespace (also inside the tags array), choice of escapes in the tag
+strings and the content, and unknown members — parsed into two buffers with any prior contents give
+byte-identical binary events, identical to what `from_parts` builds from the seven values -/
+theorem canonical_any_spelling (e : EventRec) (hs : EventSized e)
+    (hbid : ∀ b ∈ e.id, b < 256) (hbpk : ∀ b ∈ e.pubkey, b < 256) (hbsig : ∀ b ∈ e.sig, b < 256)
+    (tj₁ ec₁ tj₂ ec₂ : Bytes) (ht₁ : TagsText e.tags tj₁) (hc₁ : Spells e.content ec₁)
+    (ht₂ : TagsText e.tags tj₂) (hc₂ : Spells e.content ec₂) (buf₁ buf₂ : Bytes)
+    (hb₁ : (encodeEvent e).length ≤ buf₁.length) (hb₂ : (encodeEvent e).length ≤ buf₂.length)
+    (ms₁ ms₂ : List ESpec) (hw₁ : ∀ x ∈ ms₁, x.WsOk) (hw₂ : ∀ x ∈ ms₂, x.WsOk)
+    (hn₁ : (ms₁.filterMap ESpec.mem?).Nodup) (hn₂ : (ms₂.filterMap ESpec.mem?).Nodup)
+    (ha₁ : ∀ m : EMem, m ∈ ms₁.filterMap ESpec.mem?) (ha₂ : ∀ m : EMem, m ∈ ms₂.filterMap ESpec.mem?)
+    (l₁ l₂ R₁ R₂ : Bytes) (hl₁ : AllWs l₁) (hl₂ : AllWs l₂) :
+    ∃ c₁ c₂ n out₁ out₂,
+      parseEvent (l₁ ++ 123 :: evTextU e tj₁ ec₁ ms₁ R₁) buf₁ = .ok (c₁, n, out₁) ∧
+      parseEvent (l₂ ++ 123 :: evTextU e tj₂ ec₂ ms₂ R₂) buf₂ = .ok (c₂, n, out₂) ∧
+      out₁.take n = out₂.take n ∧ out₁.take n = encodeEvent e ∧ eventFromRec e buf₁ = .ok out₁ := by
+  have hlen : (encodeEvent e).length = eventSize (tagsSize e.tags) e.content.length := by
+    unfold encodeEvent
+    rw [encodeEventWith_length _ _ _ _ _ _ _ hs.id hs.pk hs.sig, encodeTags_length]
+  have hx₁ : ECtx e tj₁ ec₁ buf₁.length :=
+    ⟨hs, hbid, hbpk, hbsig, ht₁, hc₁, by rw [hlen] at hb₁; unfold eventSize at hb₁; exact hb₁⟩
+  have hx₂ : ECtx e tj₂ ec₂ buf₂.length :=
+    ⟨hs, hbid, hbpk, hbsig, ht₂, hc₂, by rw [hlen] at hb₂; unfold eventSize at hb₂; exact hb₂⟩
+  have p₁ := parseEvent_any_order_unknown e tj₁ ec₁ buf₁ hx₁ ms₁ hw₁ hn₁ ha₁ l₁ hl₁ R₁
+  have p₂ := parseEvent_any_order_unknown e tj₂ ec₂ buf₂ hx₂ ms₂ hw₂ hn₂ ha₂ l₂ hl₂ R₂
+  refine ⟨_, _, _, _, _, p₁, p₂, ?_, ?_, ?_⟩
+  · rw [List.take_left' rfl, List.take_left' rfl]
+  · rw [List.take_left' rfl]
+  · obtain ⟨e', hd, hf⟩ := from_json_is_from_parts _ _ _ _ _ p₁
+    rw [List.take_left' rfl, eventDecode_encode e hs] at hd
+    cases hd
+    exact hf
 
 /-- the hypotheses are satisfiable by an event with a tag, an escape-needing content and non-ASCII text -/
 example : ∃ e : EventRec, EventSized e ∧ TagsUtf8 e.tags ∧ IsUtf8 e.content ∧ e.content ≠ [] ∧ e.tags ≠ [] := by
